@@ -68,6 +68,11 @@ func checkC17(c *Ctx) {
 					r.Bad("R17.1", name, "lastRun-write-unlocked", c.Pos(ev.Pos), "lastRun is written without the mutex", shortTrace(p))
 				}
 			case ev.Kind == pw.EvFieldWrite && ev.Field != nil && fname(ev.Field) == "SkipInterval":
+				// the default stands in for an unset (zero) interval only: any other configured value, negative ones included, is
+				// the interval the calls are judged by
+				if skip == nil || p.Rel(skip, e.IntConst(0)) != pw.REq {
+					r.Bad("R17.2", name, "default-overrides-configured-interval", c.Pos(ev.Pos), "SkipInterval is overwritten on a path that does not establish that it was zero: calls are then spaced by another interval than the configured one", shortTrace(p))
+				}
 				skipVals = append(skipVals, ev.Value) // the default published into the field is the interval in effect
 				if !held(i) {
 					r.Bad("R17.1", name, "SkipInterval-write-unlocked", c.Pos(ev.Pos), "SkipInterval is defaulted without the mutex: concurrent Invalidate calls race on it", shortTrace(p))
@@ -93,6 +98,17 @@ func checkC17(c *Ctx) {
 		if len(p.Ret) != 1 {
 			r.Unknown("R17.*", name, "unexpected result count")
 			return
+		}
+		// callbacks are user code: the mutex taken before them is released by a deferred unlock, so that a panicking callback
+		// (recovered by the caller) does not leave every later Invalidate blocked — neither accepted nor rejected
+		if len(cbCalls) > 0 {
+			last := cbCalls[len(cbCalls)-1]
+			for _, ev := range p.Events[last:] {
+				if ev.Kind == pw.EvLock && ev.Op == "Unlock" && ev.Path == mu && ev.Note != "deferred" && !(ev.Frame != nil && ev.Frame.Deferred) {
+					r.Bad("R17.1", name, "unlock-not-deferred", c.Pos(ev.Pos), "the mutex held across the callbacks is released by a plain call after them: a panicking callback leaves it locked and every later Invalidate hangs", shortTrace(p))
+					break
+				}
+			}
 		}
 		// the mutex is released on every exit (the next call must be able to enter)
 		if k := len(p.Events); k > 0 {
@@ -210,7 +226,10 @@ func checkC17(c *Ctx) {
 			if cbField == nil || nilTri(p, cbField) != triFalse {
 				r.Bad("R17.4", name, "reject-without-callbacks-test", c.Pos(p.RetPos), "a call is rejected as already invalidated on a path that does not establish that callbacks are registered: with none it must report ErrNothingToInvalidate", shortTrace(p))
 			}
-			if since == nil || skip == nil || !relWithAny(p, since, skipVals, func(rel uint8) bool { return rel&pw.RGt == 0 }) {
+			// SkipInterval is the *minimal* distance: a call that comes exactly SkipInterval (or more) after the last accepted one is
+			// not rejected. (At equality this is observable: time.Since saturates at MaxInt64, so with SkipInterval = MaxInt64
+			// — "once per lifetime" — a `<=` test rejects the very first call and every later one.)
+			if since == nil || skip == nil || !relWithAny(p, since, skipVals, func(rel uint8) bool { return rel&(pw.RGt|pw.REq) == 0 }) {
 				r.Bad("R17.2", name, "reject-without-reason", c.Pos(p.RetPos), "a call is rejected on a path where since(lastRun) >= SkipInterval is possible", shortTrace(p))
 			}
 		}
